@@ -20,8 +20,8 @@ from .gen import MOODS, BAD_CLIENT_VERSIONS
 SIDES = ["s1", "s2", "s3", "s4"]
 SIDE_W = [5, 5, 3, 1]
 # around the sweep period (300) and the expiration time (660)
-TIMES = [2, 30, 200, 290, 310, 370, 480, 590, 610, 670, 700, 1000]
-TIME_W = [2, 1, 2, 1, 2, 2, 3, 2, 2, 2, 1, 1]
+TIMES = [2, 30, 200, 290, 310, 370, 480, 590, 610, 670, 700, 1000, 1300]
+TIME_W = [2, 1, 2, 1, 2, 2, 3, 2, 2, 2, 1, 1, 0.7]
 
 SCRIPTS = [
     (["claim"], 6), (["claim", "open"], 6), (["claim", "open", "add"], 5), (["claim", "open", "add", "add"], 2),
@@ -239,7 +239,7 @@ class LifeGen(object):
             # passes: the server has rows for their app but has not built any object for them yet
             r = self.r
             app = r.choice(self.apps)
-            new = [self.arrival(app, None, r.choice([[], [], ["list"], ["releaseN"]]), bad=(self.bad_cv and r.random() < 0.15))
+            new = [self.arrival(app, None, r.choice([[], [], ["list"], ["releaseN"]]), bad=(self.bad_cv and r.random() < 0.25))
                    for _ in range(r.choice([1, 2, 2, 3]))]
             for c in new:
                 if c.alive and r.random() < 0.45:
